@@ -34,6 +34,19 @@ for _p, _ref, _txt in [
 ]:
     CLAIMED[_p] = ("server", _ref, SRV_TECH, _txt, SRV_NOTE)
 
+CLAIMED["C13"] = ("codec", "5/C13, 4.8",
+    "TLA+ FramedRead.tla model-checked by TLC for 3 codecs (+4 NEG variants); every edge replayed on the real Framed; recorded runs validated by TLC (FramedReadTrace: strict = drift, predicate = violation); differential long-stream runs through the cross-checked reference",
+    "For the length-prefixed test codec, LinesCodec and BytesCodec, TLC enumerates every input up to length 4 (quick) / 5-6 (thorough) over alphabets containing the delimiters, and every script of read results (all chunkings, Pending, one I/O error, EOF) on a branch-by-branch model of next_item, proving the yielded items equal the whole-stream frames. A path cover of every model edge is executed on the real Framed over a scripted AsyncRead, and TLC judges the observed items in predicate mode, with strict mode recording drift. Seeded 20-64 KiB streams with reads up to 9000 bytes are judged by a reference cross-checked against every TLC vector.",
+    "Trusts TLC, the path-cover script, the scripted AsyncRead, and (long streams only) the Rust transliteration of WholeStreamFrames which is cross-checked on every TLC schedule.")
+CLAIMED["C14"] = ("codec", "5/C14, 4.8",
+    "TLA+ FramedWrite.tla model-checked by TLC (+5 NEG variants incl. the e49087f close defect); edge-complete path cover replayed on the real Framed (BytesCodec/LinesCodec encoders); traces validated by TLC against FramedWriteTrace (strict, recorded transport answers as hint)",
+    "All interleavings of poll_ready / start_send (sizes straddling 1 KiB and 8 KiB) / poll_flush / poll_close up to depth 5 (quick) / 6 (thorough), with every transport script (partial and full takes, Pending, zero-length write, error; flush/shutdown Ok/Pending/Err), are enumerated by TLC on a counter model of the write half. Every model edge is executed on the real Framed over a scripted AsyncWrite, with results, bytes held (byte-identical prefix) and empty/full compared. TLC strictly validates the recorded traces plus random sequences with arbitrary sizes.",
+    "Trusts TLC, the path-cover script, the scripted AsyncWrite with position-dependent payload patterns; bounded depth and size classes.")
+CLAIMED["C15"] = ("codec", "5/C15, 4.8",
+    "TLA+ LinesCodec.tla/Lines.tla (ASSUME-level enumeration by TLC, +5 NEG variants); TLC-emitted vectors replayed on the real LinesCodec::decode/decode_eof/encode; sampled observations validated by TLC (LinesTrace); seeded random strings via the cross-checked Rust reference",
+    "Exhaustive over the stated domain: TLC evaluates, for every byte string of length <= 5 (quick) / <= 7 (thorough) over {a, CR, LF, C3, A9, FF}, that the transcription of decode/decode_eof equals an independent reference splitter, and the encode / round-trip law for every tuple of <= 3 valid strings. Every one of these vectors is executed on the real LinesCodec and compared, observed outputs are re-validated by TLC, and random longer strings go through the cross-checked reference.",
+    "Trusts TLC; UTF-8 is modelled on the 6-byte alphabet only; random longer strings are judged by the Rust transliteration of the reference (cross-checked on every vector).")
+
 NOT_YET = "check not built yet in this round; the specification for it is planned in DESIGN.md section 5"
 
 
